@@ -14,7 +14,7 @@ CONSTANTS Counts,      \* per-bundle counts of the exhaustive part, e.g. {0, 1, 
           PFCounts,    \* prefix-freeness is checked against all shapes with counts in PFCounts
           Emit
 
-VARIABLES sh, done
+VARIABLES sh, toks, done
 
 MainVersions == { "sprout1", "sprout2", "v3", "v4", "v5", "v6" }
 
@@ -42,19 +42,20 @@ Shapes == BaseShapes \cup Extra
 CountsOf(s) == { s.nIn, s.nOut, s.nJS, s.nSp, s.nSO, s.nAct, s.nIrw }
 InV(s) == s \in BaseShapes /\ CountsOf(s) \subseteq MutCounts /\ s.branch \in MutBranches
 
-MutsOf(s) == LET ts == Tokens(s)
-             IN  UNION { { [t |-> j, m |-> mu.m, bytes |-> mu.bytes, rej |-> mu.rej] : mu \in Mutations(ts[j], s) } : j \in DOMAIN ts }
+MutsOf(s, ts) == UNION { { [t |-> j, m |-> mu.m, bytes |-> mu.bytes, rej |-> mu.rej] : mu \in Mutations(ts[j], s) } : j \in DOMAIN ts }
 
-CaseRec(s) == [shape |-> s, tokens |-> Tokens(s), total |-> TotalLen(s), mem |-> Mem(s),
-               v |-> InV(s), muts |-> IF InV(s) THEN MutsOf(s) ELSE { }]
+CaseRec(s, ts) == [shape |-> s, tokens |-> ts, total |-> SumLen(ts, 1), mem |-> Mem(s),
+                   v |-> InV(s), muts |-> IF InV(s) THEN MutsOf(s, ts) ELSE { }]
 
-Init == sh \in Shapes /\ done = FALSE
+\* the token sequence is computed once per shape, in the (parallel) Eval step
+Init == sh \in Shapes /\ toks = << >> /\ done = FALSE
 Eval == /\ ~done /\ done' = TRUE /\ UNCHANGED sh
-        /\ Emit => PrintT(<< "CASE", ToJson(CaseRec(sh)) >>)
+        /\ toks' = Tokens(sh)
+        /\ Emit => PrintT(<< "CASE", ToJson(CaseRec(sh, toks')) >>)
 Next == Eval
-Spec == Init /\ [][Next]_<< sh, done >>
+Spec == Init /\ [][Next]_<< sh, toks, done >>
 
-Thm == WellFormed(sh) /\ ParseInverse(sh) /\ LengthLaw(sh)
+Thm == WellFormed(sh) /\ (done => ParseInverseT(sh, toks) /\ LengthLawT(sh, toks))
 \* prefix-freeness against every shape with counts in PFCounts, for the first branch of each version
 \* (the layouts of a version under its other branches differ only in the branch-id constant)
 FirstBranch(ver) == Branches[CHOOSE i \in DOMAIN Branches : ValidInBranch(ver, Branches[i]) /\ \A j \in 1..(i - 1) : ~ValidInBranch(ver, Branches[j])]
